@@ -18,4 +18,4 @@ NEXT TraceNext
 CONSTRAINT HighWater
 POSTCONDITION Post
 CHECK_DEADLOCK FALSE
-INVARIANTS C08_Snapshot C08_NoPanic
+INVARIANTS C08_Snapshot C08_NoPanic C08_ViewsConsistent
